@@ -117,6 +117,43 @@ Fixpoint has_unhashable (v : val) : bool :=
   | _ => false
   end.
 
+(* reflect.MapOf panics ("invalid key type") for a key type that is not comparable ([]byte, slices,
+   maps, arrays / registered structs containing them): decodeType runs under Decode's recover, the
+   implementation answers with an error where the model unfolds the descriptor *)
+Fixpoint comparable (f : nat) (o : opts) (t : ty) {struct f} : bool :=
+  match f with
+  | O => true
+  | S f' =>
+    match t with
+    | TPrim PBinary => false
+    | TPrim _ | TAny => true
+    | TSlice _ | TMap _ _ => false
+    | TArray _ t' => comparable f' o t'
+    | TReg name =>
+      match lookup_reg o name with
+      | Some (RStruct fs) => forallb (comparable f' o) fs
+      | Some (RSlice _) | Some (RMap _ _) => false
+      | Some (RArray _ t') => comparable f' o t'
+      | _ => true
+      end
+    end
+  end.
+
+Fixpoint bad_map_ty (o : opts) (t : ty) : bool :=
+  match t with
+  | TMap k e => negb (comparable 20 o k) || bad_map_ty o k || bad_map_ty o e
+  | TSlice t' | TArray _ t' => bad_map_ty o t'
+  | _ => false
+  end.
+
+Fixpoint bad_map_val (o : opts) (v : val) : bool :=
+  match v with
+  | VAny t x => bad_map_ty o t || bad_map_val o x
+  | VList l => existsb (bad_map_val o) l
+  | VMap m => existsb (fun kv => bad_map_val o (fst kv) || bad_map_val o (snd kv)) m
+  | _ => false
+  end.
+
 (* a top-level nil error (edtError ff ff) reaches the caller of Decode as a nil interface, like edtNil *)
 Definition norm_nil (t : ty) (v : val) : ty * val :=
   match v with VErrNil => (TAny, VAnyNil) | _ => norm_top t v end.
@@ -127,7 +164,7 @@ Definition corr_dec (c : hcase) : bool :=
   | Ok (t, v, r), Some (it, iv, tail) =>
     let '(t', v') := norm_nil t v in
     ty_eqb (tnorm t') it && val_eqb (vn (Some t') v') (vn (Some it) iv) && (blen r =? tail)
-  | Ok (_, v, _), None => has_unhashable v
+  | Ok (t, v, _), None => has_unhashable v || bad_map_ty (h_opts c) t || bad_map_val (h_opts c) v
   | Err EData, None => true
   | _, _ => false
   end.
@@ -159,7 +196,9 @@ Definition spec_idem (c : hcase) : bool :=
     h_reenc c &&
     match h_redec c with
     | Some (t', v', tail) =>
-      ty_eqb t' t && val_eqb (canon (h_opts c) v') (canon (h_opts c) v) && (tail =? 0)
+      (* time.Time is compared up to the normal form of Go's own MarshalBinary (it is not stable for
+         zone offsets with negative seconds): [vn] makes time-shaped byte strings equal *)
+      ty_eqb t' t && val_eqb (vn (Some t) (canon (h_opts c) v')) (vn (Some t) (canon (h_opts c) v)) && (tail =? 0)
     | None => false
     end
   end.
